@@ -874,12 +874,16 @@ func (fr *frame) instr(ins ssa.Instruction, back map[[2]int]bool) {
 			}
 		}
 	case *ssa.Alloc:
-		v := fr.allocVal(x.Type().(*types.Pointer).Elem(), fr.pfx+x.Name())
-		if v.L == nil && !allocEscapes(x) {
-			t := x.Type().(*types.Pointer).Elem()
-			v = Val{T: v.T, L: &Loc{Ref: v.S, BaseT: t, T: t, Private: fr.pfx + x.Name()}}
-			// re-initialise in the private components
-			fr.vc.storeLoc(fr.mem, v.L, fr.vc.zero(t))
+		et := x.Type().(*types.Pointer).Elem()
+		var v Val
+		if !isArray(et) && !allocEscapes(x) {
+			// a local whose address does not escape lives in private components only: the heap
+			// components are not touched (not even by the zero initialisation)
+			r := vc.alloc(fr.mem, fr.pfx+x.Name())
+			v = Val{T: types.NewPointer(et), L: &Loc{Ref: r, BaseT: et, T: et, Private: fr.pfx + x.Name()}}
+			fr.vc.storeLoc(fr.mem, v.L, fr.vc.zero(et))
+		} else {
+			v = fr.allocVal(et, fr.pfx+x.Name())
 		}
 		fr.setValRaw(x, v)
 	case *ssa.Store:
